@@ -10,16 +10,23 @@ import (
 func init() { core.Register("C07", Run) }
 
 func Run(c *core.Ctx) {
-	c.Rule = "inputs: every .templ file of the repository plus grammar-generated templ files (internal/tgen: all node and attribute kinds, multi-line and multi-byte expressions, random layout); distinct non-trivial = distinct files that parse and generate; per file every Go expression of the AST, every rune start of every expression line and the position past each line end is checked"
+	c.Rule = "inputs: every .templ file of the repository plus grammar-generated templ files (internal/tgen: all node and attribute kinds, multi-line and multi-byte expressions, random layout); distinct non-trivial = distinct files that parse and generate; per file every Go expression of the AST, every rune start of every expression line and the position past each line end is checked; proxy family: histories of didOpen/didChange/didClose notifications given to proxy.Server with a stub gopls (documents: slot files covering every syntactic slot, grammar-generated files, small repository templates; edits placed relative to an expression of the current AST - blank lines / indentation / blanks above and before it, markup lines, typing inside it - plus random typing, breaking characters and their reversal, whole-document replacements, re-opens, closes, two documents), distinct non-trivial = (history, notification) pairs after which the held text generates; after each the held source map is judged against the held text and the Go text at gopls"
 	c.Proofs()
 	inputs := gentie.RepoTemplates()
 	nRepo := len(inputs)
 	inputs = append(inputs, gentie.Random(c.Rng, c.N(200, 4000), tgen.Default())...)
 	c.Extra["repo_templates"] = nRepo
+	for _, in := range inputs[:nRepo] {
+		if len(in.Src) < 1500 && read(in.Src).ok {
+			repoDocs = append(repoDocs, in)
+		}
+	}
 	gens := gentie.Tie(c, inputs, true)
 	for i, g := range gens {
 		if i%97 == 0 {
 			c.Sample(map[string]any{"file": g.In.Name, "bytes": len(g.In.Src), "source_map_entries": len(g.SM) / 16})
 		}
 	}
+	noPackageFiles(c, inputs[nRepo:])
+	proxySessions(c)
 }
